@@ -342,6 +342,21 @@ func (ga *GenAnalysis) readRecord(gf *genfacts.GenFile, spec genfacts.RecordSpec
 				}
 				return mf.InvalidAt == token.NoPos
 			})
+			// or the record's own type has a field the checker gave no type
+			// (a field of an imported type whose qualifier is undefined): what
+			// the reader knows about the record's fields is then incomplete
+			// even where the method's text mentions none of them
+			if mf.InvalidAt == token.NoPos && gf.Pkg != nil {
+				if tn, ok := gf.Pkg.Scope().Lookup(rf.GoName).(*types.TypeName); ok {
+					if st, ok := tn.Type().Underlying().(*types.Struct); ok {
+						for i := 0; i < st.NumFields(); i++ {
+							if hasInvalid(st.Field(i).Type(), 0) {
+								mf.InvalidAt = fd.Pos()
+							}
+						}
+					}
+				}
+			}
 		}
 	}
 	return rf
@@ -537,4 +552,24 @@ func goRecFixed(goName string) (int, bool) {
 		return 8, true
 	}
 	return 0, false
+}
+
+// hasInvalid: t is, or is built from, the invalid type.
+func hasInvalid(t types.Type, depth int) bool {
+	if t == nil || depth > 6 {
+		return false
+	}
+	switch u := t.(type) {
+	case *types.Basic:
+		return u.Kind() == types.Invalid
+	case *types.Pointer:
+		return hasInvalid(u.Elem(), depth+1)
+	case *types.Slice:
+		return hasInvalid(u.Elem(), depth+1)
+	case *types.Array:
+		return hasInvalid(u.Elem(), depth+1)
+	case *types.Map:
+		return hasInvalid(u.Key(), depth+1) || hasInvalid(u.Elem(), depth+1)
+	}
+	return false
 }
